@@ -1,18 +1,22 @@
-"""Registry of claimed checks -> MANIFEST.json (python -m mc.manifest)."""
+"""Registry of claimed checks -> MANIFEST.json (python -m mc.manifest).
 
-# id: (category, technique, text, note, design_ref)
-CHECKS = {
-    "C22": ("exploration",
-            "exhaustive bounded enumeration of all small arrays (small-scope), differential vs trivial stable sort",
-            "Every array of length <=12 (thorough 15) over 3 keys is pushed through the tree's mjSORT macro text "
-            "instantiated with run size 2 and 3, so each merge level / odd run count / tail copy / copy-back parity is "
-            "executed; production run size on complete pattern families for every length 0..200 (1000); every (array,k) "
-            "for mjPARTIAL_SORT; mju_insertionSort/Int. Exhaustive within the bound, which is the right level for a pure "
-            "function of a short array.",
-            "Assumes the comparator is a preorder; arrays longer than the bound are covered only through the pattern "
-            "families; run-size scaling re-defines _mjRUNSIZE before instantiating the unmodified macro.",
-            "DESIGN.md §3 C22"),
-}
+Each check module mc/checks/Cxx.py carries META = dict(category, technique, text, note, design_ref)."""
+import glob
+import importlib
+import os
 
 NOT_YET = "check not built yet in this session (see DESIGN.md §3 for the planned model-checking design)"
 NOT_APPLICABLE = {}
+
+
+def collect():
+    out = {}
+    here = os.path.join(os.path.dirname(os.path.abspath(__file__)), "checks")
+    for f in sorted(glob.glob(os.path.join(here, "C*.py"))):
+        pid = os.path.basename(f)[:-3]
+        mod = importlib.import_module("mc.checks." + pid)
+        meta = getattr(mod, "META", None)
+        if not meta or getattr(mod, "DISABLED", False):
+            continue
+        out[pid] = (meta["category"], meta["technique"], meta["text"], meta["note"], meta.get("design_ref", "DESIGN.md §3 " + pid))
+    return out
